@@ -1123,9 +1123,10 @@ func (c *Ctx) ord7Close(dial, hk *ssa.Function) {
 		di := p.Index(0, func(e *pathx.Event) bool {
 			return e.Kind == pathx.KCall && e.Callee == nil && e.Method == nil && e.Call != nil && roleKey(e.Call.Value) == "Config.Dialer"
 		})
-		if n, k := nilResult(p, di, -1); !k || !n {
+		if n, k := nilResult(p, di, -1); k && !n {
 			continue // the dial failed: nothing to close
 		}
+		// (a return that has not looked at the Dialer's error may hold a connection)
 		ok := false
 		for i := di; i < len(p.Events); i++ {
 			if isClose(&p.Events[i], conn) {
